@@ -799,15 +799,14 @@ end det
 
 /-! ## the intrinsic specialisations of the reduction back ends: theorems about GENERATED definitions
 
-`Generated/C16Spec_<isa>.lean` is regenerated by this check (props/c16_xlate.py, which extends the C08 translator by pointer
-loads, `a[k]`, brace-initialised registers and the width-directed choice of the `_add_ps/_add_pd` overload) from the
+`Generated/C16Spec_<isa>.lean` is regenerated by this check (props/c16_xlate.py, which extends the C08 translator by brace-initialised registers and the `T` of the AVX `_det` overloads and cuts the definitions out of that translator's output) from the
 preprocessed `backend/norm.h`, `trace.h`, `determinant.h`, `doublecontract.h`.  Under the decoding hypothesis `RingDec32/64`
 (the FPU's add / sub / mul are the ring operations on the decoded values — true whenever they are exact) the specialised
 `_trace` is the model's `trace`, the AVX `_det` is `det2` / `det3` (= `Matrix.det`), the radicand of `_norm<T,4|9>` is the sum of
 squares of ALL elements and `_doublecontract` is `Σ a_i b_i`. -/
 
 section spec
-attribute [local simp] loadps loadpd
+attribute [local simp] loadw loadw_ss loadw_sd
 
 /-- the lane operations of the FPU decode to the operations of a commutative ring (true on data for which they are exact) -/
 structure RingDec32 (fo : FOps) {R : Type} [CommRing R] (val : BitVec 32 → R) : Prop where
@@ -825,176 +824,178 @@ structure RingDec64 (fo : FOps) {R : Type} [CommRing R] (val : BitVec 64 → R) 
 def noSqrt (fo : FOps) : FOps := { fo with sqrt32 := id, sqrt64 := id }
 
 variable (fo : FOps) {R : Type} [CommRing R]
+/-! Memory behind a pointer is a `Reg` of 32-bit words (Model/SimdIntrinsics.lean): element `i` of a `float*` is `a i`, element `i`
+    of a `double*` is `lane64 a i`. -/
 
 -- ------------------------------------------------------------------------------------------------ configuration `avx2`
-theorem spec_avx2_trace_double_2x2 (a : Nat → BitVec 64) : avx2.spec.trace_double_2x2 fo a = fo.add64 (a 0) (a 3) := by
+theorem spec_avx2_trace_double_2x2 (a : Reg) : avx2.spec.trace_double_2x2 fo a = fo.add64 (lane64 a 0) (lane64 a 3) := by
   simp [simd, avx2.spec.trace_double_2x2, lane64]
-theorem spec_avx2_trace_double_3x3 (a : Nat → BitVec 64) : avx2.spec.trace_double_3x3 fo a = fo.add64 (a 0) (fo.add64 (a 4) (a 8)) := by
+theorem spec_avx2_trace_double_3x3 (a : Reg) : avx2.spec.trace_double_3x3 fo a = fo.add64 (lane64 a 0) (fo.add64 (lane64 a 4) (lane64 a 8)) := by
   simp [simd, avx2.spec.trace_double_3x3, lane64]
-theorem spec_avx2_trace_float_2x2 (a : Nat → BitVec 32) : avx2.spec.trace_float_2x2 fo a = fo.add32 (a 0) (a 3) := by
+theorem spec_avx2_trace_float_2x2 (a : Reg) : avx2.spec.trace_float_2x2 fo a = fo.add32 (a 0) (a 3) := by
   simp [simd, avx2.spec.trace_float_2x2, avx2.mm_reverse_ps]
-theorem spec_avx2_trace_float_3x3 (a : Nat → BitVec 32) : avx2.spec.trace_float_3x3 fo a = fo.add32 (fo.add32 (a 0) (a 4)) (a 8) := by
+theorem spec_avx2_trace_float_3x3 (a : Reg) : avx2.spec.trace_float_3x3 fo a = fo.add32 (fo.add32 (a 0) (a 4)) (a 8) := by
   simp [simd, avx2.spec.trace_float_3x3]
 /-- the specialised traces are the model's `trace` (the sum of the diagonal `i*M+i`) -/
-theorem spec_avx2_trace_float_3x3_model (val : BitVec 32 → R) (h : RingDec32 fo val) (a : Nat → BitVec 32) :
+theorem spec_avx2_trace_float_3x3_model (val : BitVec 32 → R) (h : RingDec32 fo val) (a : Reg) :
     val (avx2.spec.trace_float_3x3 fo a) = Reduce.trace (fun i => val (a i)) 3 := by
   rw [spec_avx2_trace_float_3x3]; simp [Reduce.trace, h.add, List.range, List.range.loop]
-theorem spec_avx2_trace_double_3x3_model (val : BitVec 64 → R) (h : RingDec64 fo val) (a : Nat → BitVec 64) :
-    val (avx2.spec.trace_double_3x3 fo a) = Reduce.trace (fun i => val (a i)) 3 := by
+theorem spec_avx2_trace_double_3x3_model (val : BitVec 64 → R) (h : RingDec64 fo val) (a : Reg) :
+    val (avx2.spec.trace_double_3x3 fo a) = Reduce.trace (fun i => val (lane64 a i)) 3 := by
   rw [spec_avx2_trace_double_3x3]; simp [Reduce.trace, h.add, List.range, List.range.loop]; ring
-theorem spec_avx2_trace_float_2x2_model (val : BitVec 32 → R) (h : RingDec32 fo val) (a : Nat → BitVec 32) :
+theorem spec_avx2_trace_float_2x2_model (val : BitVec 32 → R) (h : RingDec32 fo val) (a : Reg) :
     val (avx2.spec.trace_float_2x2 fo a) = Reduce.trace (fun i => val (a i)) 2 := by
   rw [spec_avx2_trace_float_2x2]; simp [Reduce.trace, h.add, List.range, List.range.loop]
-theorem spec_avx2_trace_double_2x2_model (val : BitVec 64 → R) (h : RingDec64 fo val) (a : Nat → BitVec 64) :
-    val (avx2.spec.trace_double_2x2 fo a) = Reduce.trace (fun i => val (a i)) 2 := by
+theorem spec_avx2_trace_double_2x2_model (val : BitVec 64 → R) (h : RingDec64 fo val) (a : Reg) :
+    val (avx2.spec.trace_double_2x2 fo a) = Reduce.trace (fun i => val (lane64 a i)) 2 := by
   rw [spec_avx2_trace_double_2x2]; simp [Reduce.trace, h.add, List.range, List.range.loop]
 
 /-- the AVX `_det` code for 2x2 and 3x3 float / double matrices decodes to the closed forms `det2` / `det3` of the model
     (= `Matrix.det` by `det2_correct`, `det3_correct`) -/
-theorem spec_avx2_det_float_2 (val : BitVec 32 → R) (h : RingDec32 fo val) (a : Nat → BitVec 32) :
+theorem spec_avx2_det_float_2 (val : BitVec 32 → R) (h : RingDec32 fo val) (a : Reg) :
     val (avx2.spec.det_float_2 fo a) = det2 (fun i => val (a i)) := by
   simp [simd, avx2.spec.det_float_2, det2, h.sub, h.mul]
-theorem spec_avx2_det_double_2 (val : BitVec 64 → R) (h : RingDec64 fo val) (a : Nat → BitVec 64) :
-    val (avx2.spec.det_double_2 fo a) = det2 (fun i => val (a i)) := by
+theorem spec_avx2_det_double_2 (val : BitVec 64 → R) (h : RingDec64 fo val) (a : Reg) :
+    val (avx2.spec.det_double_2 fo a) = det2 (fun i => val (lane64 a i)) := by
   simp [simd, avx2.spec.det_double_2, det2, h.sub, h.mul, lane64]
-theorem spec_avx2_det_float_3 (val : BitVec 32 → R) (h : RingDec32 fo val) (a : Nat → BitVec 32) :
+theorem spec_avx2_det_float_3 (val : BitVec 32 → R) (h : RingDec32 fo val) (a : Reg) :
     val (avx2.spec.det_float_3 fo a) = det3 (fun i => val (a i)) := by
   simp [simd, avx2.spec.det_float_3, avx2.h_add_ps, det3, h.sub, h.mul, h.add, h.zero]
   simp only [show val 0#32 = (0 : R) from h.zero]
   ring
-theorem spec_avx2_det_double_3 (val : BitVec 64 → R) (h : RingDec64 fo val) (a : Nat → BitVec 64) :
-    val (avx2.spec.det_double_3 fo a) = det3 (fun i => val (a i)) := by
-  simp [simd, avx2.spec.det_double_3, avx2.h_add_pd_2, det3, h.sub, h.mul, h.add, h.zero, lane64, hadd_pd, extractf128]
+theorem spec_avx2_det_double_3 (val : BitVec 64 → R) (h : RingDec64 fo val) (a : Reg) :
+    val (avx2.spec.det_double_3 fo a) = det3 (fun i => val (lane64 a i)) := by
+  simp [simd, avx2.spec.det_double_3, avx2.h_add_pd_m256d, det3, h.sub, h.mul, h.add, h.zero, lane64, hadd_pd, extractf128]
   simp only [show val 0#64 = (0 : R) from h.zero]
   ring
 
 /-- `_norm<T,4|9>`: the result is `sqrt` of the radicand, and the radicand decodes to the sum of squares of all elements -/
-theorem spec_avx2_norm_float_4_sqrt (a : Nat → BitVec 32) : avx2.spec.norm_float_4 fo a = fo.sqrt32 (avx2.spec.norm_float_4 (noSqrt fo) a) := by
-  simp [simd, avx2.spec.norm_float_4, avx2.h_add_ps, noSqrt]
-theorem spec_avx2_norm_float_4_radicand (val : BitVec 32 → R) (h : RingDec32 fo val) (a : Nat → BitVec 32) :
+theorem spec_avx2_norm_float_4_sqrt (a : Reg) : avx2.spec.norm_float_4 fo a = fo.sqrt32 (avx2.spec.norm_float_4 (noSqrt fo) a) := by
+  simp [simd, avx2.spec.norm_float_4, avx2.h_norm_float_4, avx2.h_add_ps, noSqrt]
+theorem spec_avx2_norm_float_4_radicand (val : BitVec 32 → R) (h : RingDec32 fo val) (a : Reg) :
     val (avx2.spec.norm_float_4 (noSqrt fo) a) = ∑ i ∈ range 4, val (a i) * val (a i) := by
-  simp [simd, avx2.spec.norm_float_4, avx2.h_add_ps, noSqrt, h.add, h.mul, Finset.sum_range_succ]; ring
-theorem spec_avx2_norm_float_9_sqrt (a : Nat → BitVec 32) : avx2.spec.norm_float_9 fo a = fo.sqrt32 (avx2.spec.norm_float_9 (noSqrt fo) a) := by
-  simp [simd, avx2.spec.norm_float_9, avx2.h_add_ps, avx2.h_add_ps_2, noSqrt]
-theorem spec_avx2_norm_float_9_radicand (val : BitVec 32 → R) (h : RingDec32 fo val) (a : Nat → BitVec 32) :
+  simp [simd, avx2.spec.norm_float_4, avx2.h_norm_float_4, avx2.h_add_ps, noSqrt, h.add, h.mul, Finset.sum_range_succ]; ring
+theorem spec_avx2_norm_float_9_sqrt (a : Reg) : avx2.spec.norm_float_9 fo a = fo.sqrt32 (avx2.spec.norm_float_9 (noSqrt fo) a) := by
+  simp [simd, avx2.spec.norm_float_9, avx2.h_norm_float_9, avx2.h_add_ps, avx2.h_add_ps_m256, noSqrt]
+theorem spec_avx2_norm_float_9_radicand (val : BitVec 32 → R) (h : RingDec32 fo val) (a : Reg) :
     val (avx2.spec.norm_float_9 (noSqrt fo) a) = ∑ i ∈ range 9, val (a i) * val (a i) := by
-  simp [simd, avx2.spec.norm_float_9, avx2.h_add_ps, avx2.h_add_ps_2, extractf128, noSqrt, h.add, h.mul, h.zero, Finset.sum_range_succ]
+  simp [simd, avx2.spec.norm_float_9, avx2.h_norm_float_9, avx2.h_add_ps, avx2.h_add_ps_m256, extractf128, noSqrt, h.add, h.mul, h.zero, Finset.sum_range_succ]
   simp only [show val 0#32 = (0 : R) from h.zero]
   ring
-theorem spec_avx2_norm_double_4_sqrt (a : Nat → BitVec 64) : avx2.spec.norm_double_4 fo a = fo.sqrt64 (avx2.spec.norm_double_4 (noSqrt fo) a) := by
-  simp [simd, avx2.spec.norm_double_4, avx2.h_add_pd_2, noSqrt, lane64, hadd_pd, extractf128]
-theorem spec_avx2_norm_double_4_radicand (val : BitVec 64 → R) (h : RingDec64 fo val) (a : Nat → BitVec 64) :
-    val (avx2.spec.norm_double_4 (noSqrt fo) a) = ∑ i ∈ range 4, val (a i) * val (a i) := by
-  simp [simd, avx2.spec.norm_double_4, avx2.h_add_pd_2, noSqrt, h.add, h.mul, Finset.sum_range_succ, lane64, hadd_pd, extractf128]; ring
-theorem spec_avx2_norm_double_9_sqrt (a : Nat → BitVec 64) : avx2.spec.norm_double_9 fo a = fo.sqrt64 (avx2.spec.norm_double_9 (noSqrt fo) a) := by
-  simp [simd, avx2.spec.norm_double_9, avx2.h_add_pd, avx2.h_add_pd_2, noSqrt, lane64, hadd_pd, extractf128, movehl_ps]
-theorem spec_avx2_norm_double_9_radicand (val : BitVec 64 → R) (h : RingDec64 fo val) (a : Nat → BitVec 64) :
-    val (avx2.spec.norm_double_9 (noSqrt fo) a) = ∑ i ∈ range 9, val (a i) * val (a i) := by
-  simp [simd, avx2.spec.norm_double_9, avx2.h_add_pd, avx2.h_add_pd_2, noSqrt, h.add, h.mul, h.zero, Finset.sum_range_succ, lane64, hadd_pd, extractf128, movehl_ps]
+theorem spec_avx2_norm_double_4_sqrt (a : Reg) : avx2.spec.norm_double_4 fo a = fo.sqrt64 (avx2.spec.norm_double_4 (noSqrt fo) a) := by
+  simp [simd, avx2.spec.norm_double_4, avx2.h_norm_double_4, avx2.h_add_pd_m256d, noSqrt, lane64, hadd_pd, extractf128]
+theorem spec_avx2_norm_double_4_radicand (val : BitVec 64 → R) (h : RingDec64 fo val) (a : Reg) :
+    val (avx2.spec.norm_double_4 (noSqrt fo) a) = ∑ i ∈ range 4, val (lane64 a i) * val (lane64 a i) := by
+  simp [simd, avx2.spec.norm_double_4, avx2.h_norm_double_4, avx2.h_add_pd_m256d, noSqrt, h.add, h.mul, Finset.sum_range_succ, lane64, hadd_pd, extractf128]; ring
+theorem spec_avx2_norm_double_9_sqrt (a : Reg) : avx2.spec.norm_double_9 fo a = fo.sqrt64 (avx2.spec.norm_double_9 (noSqrt fo) a) := by
+  simp [simd, avx2.spec.norm_double_9, avx2.h_norm_double_9, avx2.h_add_pd, avx2.h_add_pd_m256d, noSqrt, lane64, hadd_pd, extractf128, movehl_ps]
+theorem spec_avx2_norm_double_9_radicand (val : BitVec 64 → R) (h : RingDec64 fo val) (a : Reg) :
+    val (avx2.spec.norm_double_9 (noSqrt fo) a) = ∑ i ∈ range 9, val (lane64 a i) * val (lane64 a i) := by
+  simp [simd, avx2.spec.norm_double_9, avx2.h_norm_double_9, avx2.h_add_pd, avx2.h_add_pd_m256d, noSqrt, h.add, h.mul, h.zero, Finset.sum_range_succ, lane64, hadd_pd, extractf128, movehl_ps]
   simp only [show val 0#64 = (0 : R) from h.zero]
   ring
 
 /-- `_doublecontract<T,2,2|3,3>` decodes to `Σ a_i b_i` over all 4 / 9 elements -/
-theorem spec_avx2_dc_float_2x2 (val : BitVec 32 → R) (h : RingDec32 fo val) (a b : Nat → BitVec 32) :
+theorem spec_avx2_dc_float_2x2 (val : BitVec 32 → R) (h : RingDec32 fo val) (a b : Reg) :
     val (avx2.spec.doublecontract_float_2x2 fo a b) = ∑ i ∈ range 4, val (a i) * val (b i) := by
   simp [simd, avx2.spec.doublecontract_float_2x2, avx2.mm_sum_ps, h.add, h.mul, Finset.sum_range_succ]; ring
-theorem spec_avx2_dc_float_3x3 (val : BitVec 32 → R) (h : RingDec32 fo val) (a b : Nat → BitVec 32) :
+theorem spec_avx2_dc_float_3x3 (val : BitVec 32 → R) (h : RingDec32 fo val) (a b : Reg) :
     val (avx2.spec.doublecontract_float_3x3 fo a b) = ∑ i ∈ range 9, val (a i) * val (b i) := by
   simp [simd, avx2.spec.doublecontract_float_3x3, avx2.mm_sum_ps, avx2.mm256_sum_ps, extractf128, h.add, h.mul, h.zero, Finset.sum_range_succ]
   simp only [show val 0#32 = (0 : R) from h.zero]
   ring
-theorem spec_avx2_dc_double_2x2 (val : BitVec 64 → R) (h : RingDec64 fo val) (a b : Nat → BitVec 64) :
-    val (avx2.spec.doublecontract_double_2x2 fo a b) = ∑ i ∈ range 4, val (a i) * val (b i) := by
+theorem spec_avx2_dc_double_2x2 (val : BitVec 64 → R) (h : RingDec64 fo val) (a b : Reg) :
+    val (avx2.spec.doublecontract_double_2x2 fo a b) = ∑ i ∈ range 4, val (lane64 a i) * val (lane64 b i) := by
   simp [simd, avx2.spec.doublecontract_double_2x2, avx2.mm256_sum_pd, extractf128, shuffle_pd, lane64, h.add, h.mul, Finset.sum_range_succ]; ring
-theorem spec_avx2_dc_double_3x3 (val : BitVec 64 → R) (h : RingDec64 fo val) (a b : Nat → BitVec 64) :
-    val (avx2.spec.doublecontract_double_3x3 fo a b) = ∑ i ∈ range 9, val (a i) * val (b i) := by
-  simp [simd, avx2.spec.doublecontract_double_3x3, avx2.h_add_pd, avx2.h_add_pd_2, extractf128, hadd_pd, movehl_ps, lane64, h.add, h.mul, h.zero, Finset.sum_range_succ]
+theorem spec_avx2_dc_double_3x3 (val : BitVec 64 → R) (h : RingDec64 fo val) (a b : Reg) :
+    val (avx2.spec.doublecontract_double_3x3 fo a b) = ∑ i ∈ range 9, val (lane64 a i) * val (lane64 b i) := by
+  simp [simd, avx2.spec.doublecontract_double_3x3, avx2.h_add_pd, avx2.h_add_pd_m256d, extractf128, hadd_pd, movehl_ps, lane64, h.add, h.mul, h.zero, Finset.sum_range_succ]
   simp only [show val 0#64 = (0 : R) from h.zero]
   ring
 
 -- ------------------------------------------------------------------------------------------------ configuration `avx512`
-theorem spec_avx512_trace_double_2x2 (a : Nat → BitVec 64) : avx512.spec.trace_double_2x2 fo a = fo.add64 (a 0) (a 3) := by
+theorem spec_avx512_trace_double_2x2 (a : Reg) : avx512.spec.trace_double_2x2 fo a = fo.add64 (lane64 a 0) (lane64 a 3) := by
   simp [simd, avx512.spec.trace_double_2x2, lane64]
-theorem spec_avx512_trace_double_3x3 (a : Nat → BitVec 64) : avx512.spec.trace_double_3x3 fo a = fo.add64 (a 0) (fo.add64 (a 4) (a 8)) := by
+theorem spec_avx512_trace_double_3x3 (a : Reg) : avx512.spec.trace_double_3x3 fo a = fo.add64 (lane64 a 0) (fo.add64 (lane64 a 4) (lane64 a 8)) := by
   simp [simd, avx512.spec.trace_double_3x3, lane64]
-theorem spec_avx512_trace_float_2x2 (a : Nat → BitVec 32) : avx512.spec.trace_float_2x2 fo a = fo.add32 (a 0) (a 3) := by
+theorem spec_avx512_trace_float_2x2 (a : Reg) : avx512.spec.trace_float_2x2 fo a = fo.add32 (a 0) (a 3) := by
   simp [simd, avx512.spec.trace_float_2x2, avx512.mm_reverse_ps]
-theorem spec_avx512_trace_float_3x3 (a : Nat → BitVec 32) : avx512.spec.trace_float_3x3 fo a = fo.add32 (fo.add32 (a 0) (a 4)) (a 8) := by
+theorem spec_avx512_trace_float_3x3 (a : Reg) : avx512.spec.trace_float_3x3 fo a = fo.add32 (fo.add32 (a 0) (a 4)) (a 8) := by
   simp [simd, avx512.spec.trace_float_3x3]
 /-- the specialised traces are the model's `trace` (the sum of the diagonal `i*M+i`) -/
-theorem spec_avx512_trace_float_3x3_model (val : BitVec 32 → R) (h : RingDec32 fo val) (a : Nat → BitVec 32) :
+theorem spec_avx512_trace_float_3x3_model (val : BitVec 32 → R) (h : RingDec32 fo val) (a : Reg) :
     val (avx512.spec.trace_float_3x3 fo a) = Reduce.trace (fun i => val (a i)) 3 := by
   rw [spec_avx512_trace_float_3x3]; simp [Reduce.trace, h.add, List.range, List.range.loop]
-theorem spec_avx512_trace_double_3x3_model (val : BitVec 64 → R) (h : RingDec64 fo val) (a : Nat → BitVec 64) :
-    val (avx512.spec.trace_double_3x3 fo a) = Reduce.trace (fun i => val (a i)) 3 := by
+theorem spec_avx512_trace_double_3x3_model (val : BitVec 64 → R) (h : RingDec64 fo val) (a : Reg) :
+    val (avx512.spec.trace_double_3x3 fo a) = Reduce.trace (fun i => val (lane64 a i)) 3 := by
   rw [spec_avx512_trace_double_3x3]; simp [Reduce.trace, h.add, List.range, List.range.loop]; ring
-theorem spec_avx512_trace_float_2x2_model (val : BitVec 32 → R) (h : RingDec32 fo val) (a : Nat → BitVec 32) :
+theorem spec_avx512_trace_float_2x2_model (val : BitVec 32 → R) (h : RingDec32 fo val) (a : Reg) :
     val (avx512.spec.trace_float_2x2 fo a) = Reduce.trace (fun i => val (a i)) 2 := by
   rw [spec_avx512_trace_float_2x2]; simp [Reduce.trace, h.add, List.range, List.range.loop]
-theorem spec_avx512_trace_double_2x2_model (val : BitVec 64 → R) (h : RingDec64 fo val) (a : Nat → BitVec 64) :
-    val (avx512.spec.trace_double_2x2 fo a) = Reduce.trace (fun i => val (a i)) 2 := by
+theorem spec_avx512_trace_double_2x2_model (val : BitVec 64 → R) (h : RingDec64 fo val) (a : Reg) :
+    val (avx512.spec.trace_double_2x2 fo a) = Reduce.trace (fun i => val (lane64 a i)) 2 := by
   rw [spec_avx512_trace_double_2x2]; simp [Reduce.trace, h.add, List.range, List.range.loop]
 
 /-- the AVX `_det` code for 2x2 and 3x3 float / double matrices decodes to the closed forms `det2` / `det3` of the model
     (= `Matrix.det` by `det2_correct`, `det3_correct`) -/
-theorem spec_avx512_det_float_2 (val : BitVec 32 → R) (h : RingDec32 fo val) (a : Nat → BitVec 32) :
+theorem spec_avx512_det_float_2 (val : BitVec 32 → R) (h : RingDec32 fo val) (a : Reg) :
     val (avx512.spec.det_float_2 fo a) = det2 (fun i => val (a i)) := by
   simp [simd, avx512.spec.det_float_2, det2, h.sub, h.mul]
-theorem spec_avx512_det_double_2 (val : BitVec 64 → R) (h : RingDec64 fo val) (a : Nat → BitVec 64) :
-    val (avx512.spec.det_double_2 fo a) = det2 (fun i => val (a i)) := by
+theorem spec_avx512_det_double_2 (val : BitVec 64 → R) (h : RingDec64 fo val) (a : Reg) :
+    val (avx512.spec.det_double_2 fo a) = det2 (fun i => val (lane64 a i)) := by
   simp [simd, avx512.spec.det_double_2, det2, h.sub, h.mul, lane64]
-theorem spec_avx512_det_float_3 (val : BitVec 32 → R) (h : RingDec32 fo val) (a : Nat → BitVec 32) :
+theorem spec_avx512_det_float_3 (val : BitVec 32 → R) (h : RingDec32 fo val) (a : Reg) :
     val (avx512.spec.det_float_3 fo a) = det3 (fun i => val (a i)) := by
   simp [simd, avx512.spec.det_float_3, avx512.h_add_ps, det3, h.sub, h.mul, h.add, h.zero]
   simp only [show val 0#32 = (0 : R) from h.zero]
   ring
-theorem spec_avx512_det_double_3 (val : BitVec 64 → R) (h : RingDec64 fo val) (a : Nat → BitVec 64) :
-    val (avx512.spec.det_double_3 fo a) = det3 (fun i => val (a i)) := by
-  simp [simd, avx512.spec.det_double_3, avx512.h_add_pd_2, det3, h.sub, h.mul, h.add, h.zero, lane64, hadd_pd, extractf128]
+theorem spec_avx512_det_double_3 (val : BitVec 64 → R) (h : RingDec64 fo val) (a : Reg) :
+    val (avx512.spec.det_double_3 fo a) = det3 (fun i => val (lane64 a i)) := by
+  simp [simd, avx512.spec.det_double_3, avx512.h_add_pd_m256d, det3, h.sub, h.mul, h.add, h.zero, lane64, hadd_pd, extractf128]
   simp only [show val 0#64 = (0 : R) from h.zero]
   ring
 
 /-- `_norm<T,4|9>`: the result is `sqrt` of the radicand, and the radicand decodes to the sum of squares of all elements -/
-theorem spec_avx512_norm_float_4_sqrt (a : Nat → BitVec 32) : avx512.spec.norm_float_4 fo a = fo.sqrt32 (avx512.spec.norm_float_4 (noSqrt fo) a) := by
-  simp [simd, avx512.spec.norm_float_4, avx512.h_add_ps, noSqrt]
-theorem spec_avx512_norm_float_4_radicand (val : BitVec 32 → R) (h : RingDec32 fo val) (a : Nat → BitVec 32) :
+theorem spec_avx512_norm_float_4_sqrt (a : Reg) : avx512.spec.norm_float_4 fo a = fo.sqrt32 (avx512.spec.norm_float_4 (noSqrt fo) a) := by
+  simp [simd, avx512.spec.norm_float_4, avx512.h_norm_float_4, avx512.h_add_ps, noSqrt]
+theorem spec_avx512_norm_float_4_radicand (val : BitVec 32 → R) (h : RingDec32 fo val) (a : Reg) :
     val (avx512.spec.norm_float_4 (noSqrt fo) a) = ∑ i ∈ range 4, val (a i) * val (a i) := by
-  simp [simd, avx512.spec.norm_float_4, avx512.h_add_ps, noSqrt, h.add, h.mul, Finset.sum_range_succ]; ring
-theorem spec_avx512_norm_float_9_sqrt (a : Nat → BitVec 32) : avx512.spec.norm_float_9 fo a = fo.sqrt32 (avx512.spec.norm_float_9 (noSqrt fo) a) := by
-  simp [simd, avx512.spec.norm_float_9, avx512.h_add_ps, avx512.h_add_ps_2, noSqrt]
-theorem spec_avx512_norm_float_9_radicand (val : BitVec 32 → R) (h : RingDec32 fo val) (a : Nat → BitVec 32) :
+  simp [simd, avx512.spec.norm_float_4, avx512.h_norm_float_4, avx512.h_add_ps, noSqrt, h.add, h.mul, Finset.sum_range_succ]; ring
+theorem spec_avx512_norm_float_9_sqrt (a : Reg) : avx512.spec.norm_float_9 fo a = fo.sqrt32 (avx512.spec.norm_float_9 (noSqrt fo) a) := by
+  simp [simd, avx512.spec.norm_float_9, avx512.h_norm_float_9, avx512.h_add_ps, avx512.h_add_ps_m256, noSqrt]
+theorem spec_avx512_norm_float_9_radicand (val : BitVec 32 → R) (h : RingDec32 fo val) (a : Reg) :
     val (avx512.spec.norm_float_9 (noSqrt fo) a) = ∑ i ∈ range 9, val (a i) * val (a i) := by
-  simp [simd, avx512.spec.norm_float_9, avx512.h_add_ps, avx512.h_add_ps_2, extractf128, noSqrt, h.add, h.mul, h.zero, Finset.sum_range_succ]
+  simp [simd, avx512.spec.norm_float_9, avx512.h_norm_float_9, avx512.h_add_ps, avx512.h_add_ps_m256, extractf128, noSqrt, h.add, h.mul, h.zero, Finset.sum_range_succ]
   simp only [show val 0#32 = (0 : R) from h.zero]
   ring
-theorem spec_avx512_norm_double_4_sqrt (a : Nat → BitVec 64) : avx512.spec.norm_double_4 fo a = fo.sqrt64 (avx512.spec.norm_double_4 (noSqrt fo) a) := by
-  simp [simd, avx512.spec.norm_double_4, avx512.h_add_pd_2, noSqrt, lane64, hadd_pd, extractf128]
-theorem spec_avx512_norm_double_4_radicand (val : BitVec 64 → R) (h : RingDec64 fo val) (a : Nat → BitVec 64) :
-    val (avx512.spec.norm_double_4 (noSqrt fo) a) = ∑ i ∈ range 4, val (a i) * val (a i) := by
-  simp [simd, avx512.spec.norm_double_4, avx512.h_add_pd_2, noSqrt, h.add, h.mul, Finset.sum_range_succ, lane64, hadd_pd, extractf128]; ring
-theorem spec_avx512_norm_double_9_sqrt (a : Nat → BitVec 64) : avx512.spec.norm_double_9 fo a = fo.sqrt64 (avx512.spec.norm_double_9 (noSqrt fo) a) := by
-  simp [simd, avx512.spec.norm_double_9, avx512.h_add_pd, avx512.h_add_pd_2, noSqrt, lane64, hadd_pd, extractf128, movehl_ps]
-theorem spec_avx512_norm_double_9_radicand (val : BitVec 64 → R) (h : RingDec64 fo val) (a : Nat → BitVec 64) :
-    val (avx512.spec.norm_double_9 (noSqrt fo) a) = ∑ i ∈ range 9, val (a i) * val (a i) := by
-  simp [simd, avx512.spec.norm_double_9, avx512.h_add_pd, avx512.h_add_pd_2, noSqrt, h.add, h.mul, h.zero, Finset.sum_range_succ, lane64, hadd_pd, extractf128, movehl_ps]
+theorem spec_avx512_norm_double_4_sqrt (a : Reg) : avx512.spec.norm_double_4 fo a = fo.sqrt64 (avx512.spec.norm_double_4 (noSqrt fo) a) := by
+  simp [simd, avx512.spec.norm_double_4, avx512.h_norm_double_4, avx512.h_add_pd_m256d, noSqrt, lane64, hadd_pd, extractf128]
+theorem spec_avx512_norm_double_4_radicand (val : BitVec 64 → R) (h : RingDec64 fo val) (a : Reg) :
+    val (avx512.spec.norm_double_4 (noSqrt fo) a) = ∑ i ∈ range 4, val (lane64 a i) * val (lane64 a i) := by
+  simp [simd, avx512.spec.norm_double_4, avx512.h_norm_double_4, avx512.h_add_pd_m256d, noSqrt, h.add, h.mul, Finset.sum_range_succ, lane64, hadd_pd, extractf128]; ring
+theorem spec_avx512_norm_double_9_sqrt (a : Reg) : avx512.spec.norm_double_9 fo a = fo.sqrt64 (avx512.spec.norm_double_9 (noSqrt fo) a) := by
+  simp [simd, avx512.spec.norm_double_9, avx512.h_norm_double_9, avx512.h_add_pd, avx512.h_add_pd_m256d, noSqrt, lane64, hadd_pd, extractf128, movehl_ps]
+theorem spec_avx512_norm_double_9_radicand (val : BitVec 64 → R) (h : RingDec64 fo val) (a : Reg) :
+    val (avx512.spec.norm_double_9 (noSqrt fo) a) = ∑ i ∈ range 9, val (lane64 a i) * val (lane64 a i) := by
+  simp [simd, avx512.spec.norm_double_9, avx512.h_norm_double_9, avx512.h_add_pd, avx512.h_add_pd_m256d, noSqrt, h.add, h.mul, h.zero, Finset.sum_range_succ, lane64, hadd_pd, extractf128, movehl_ps]
   simp only [show val 0#64 = (0 : R) from h.zero]
   ring
 
 /-- `_doublecontract<T,2,2|3,3>` decodes to `Σ a_i b_i` over all 4 / 9 elements -/
-theorem spec_avx512_dc_float_2x2 (val : BitVec 32 → R) (h : RingDec32 fo val) (a b : Nat → BitVec 32) :
+theorem spec_avx512_dc_float_2x2 (val : BitVec 32 → R) (h : RingDec32 fo val) (a b : Reg) :
     val (avx512.spec.doublecontract_float_2x2 fo a b) = ∑ i ∈ range 4, val (a i) * val (b i) := by
   simp [simd, avx512.spec.doublecontract_float_2x2, avx512.mm_sum_ps, h.add, h.mul, Finset.sum_range_succ]; ring
-theorem spec_avx512_dc_float_3x3 (val : BitVec 32 → R) (h : RingDec32 fo val) (a b : Nat → BitVec 32) :
+theorem spec_avx512_dc_float_3x3 (val : BitVec 32 → R) (h : RingDec32 fo val) (a b : Reg) :
     val (avx512.spec.doublecontract_float_3x3 fo a b) = ∑ i ∈ range 9, val (a i) * val (b i) := by
   simp [simd, avx512.spec.doublecontract_float_3x3, avx512.mm_sum_ps, avx512.mm256_sum_ps, extractf128, h.add, h.mul, h.zero, Finset.sum_range_succ]
   simp only [show val 0#32 = (0 : R) from h.zero]
   ring
-theorem spec_avx512_dc_double_2x2 (val : BitVec 64 → R) (h : RingDec64 fo val) (a b : Nat → BitVec 64) :
-    val (avx512.spec.doublecontract_double_2x2 fo a b) = ∑ i ∈ range 4, val (a i) * val (b i) := by
+theorem spec_avx512_dc_double_2x2 (val : BitVec 64 → R) (h : RingDec64 fo val) (a b : Reg) :
+    val (avx512.spec.doublecontract_double_2x2 fo a b) = ∑ i ∈ range 4, val (lane64 a i) * val (lane64 b i) := by
   simp [simd, avx512.spec.doublecontract_double_2x2, avx512.mm256_sum_pd, extractf128, shuffle_pd, lane64, h.add, h.mul, Finset.sum_range_succ]; ring
-theorem spec_avx512_dc_double_3x3 (val : BitVec 64 → R) (h : RingDec64 fo val) (a b : Nat → BitVec 64) :
-    val (avx512.spec.doublecontract_double_3x3 fo a b) = ∑ i ∈ range 9, val (a i) * val (b i) := by
-  simp [simd, avx512.spec.doublecontract_double_3x3, avx512.h_add_pd, avx512.h_add_pd_2, extractf128, hadd_pd, movehl_ps, lane64, h.add, h.mul, h.zero, Finset.sum_range_succ]
+theorem spec_avx512_dc_double_3x3 (val : BitVec 64 → R) (h : RingDec64 fo val) (a b : Reg) :
+    val (avx512.spec.doublecontract_double_3x3 fo a b) = ∑ i ∈ range 9, val (lane64 a i) * val (lane64 b i) := by
+  simp [simd, avx512.spec.doublecontract_double_3x3, avx512.h_add_pd, avx512.h_add_pd_m256d, extractf128, hadd_pd, movehl_ps, lane64, h.add, h.mul, h.zero, Finset.sum_range_succ]
   simp only [show val 0#64 = (0 : R) from h.zero]
   ring
 
